@@ -324,4 +324,19 @@ theorem C06_first_read_text_uns_partial (D : Desc) (s : St) (i : SvcIn) (hb : Bu
   rw [C06_read_handler_uns D _ i hst, e.1, e.2, hcm]
   simp
 
+/-- **exact text, first round, unsolicited TEST event of a command without variables**: the test handler gets exactly
+name ++ `=` (++ line break ++ description) in the unsolicited machine's own region, its length and that region's capacity -/
+theorem C06_first_test_text_uns_partial (D : Desc) (s : St) (i : SvcIn) (hb : BufLen D s .uns) (hc : s.ucmd.isSome = true)
+    (hv : ((D.cmdD s.ucmd).vars.isSome && decide ((D.cmdD s.ucmd).varNum > 0)) = false) (ht : (D.cmdD s.ucmd).hasTest = true)
+    (hfit : (testText (D.cmdD s.ucmd) (nlStr s)).length < D.unsCap)
+    (hn : ∀ b ∈ testText (D.cmdD s.ucmd) (nlStr s), b ≠ 0) :
+    tr .cbU (unsolicitedEventsService D (startFormatTest D s .uns) i).1.log =
+      tr .cbU (startFormatTest D s .uns).log ++
+        [.handler .uns .test (s.ucmd.getD 0) (testText (D.cmdD s.ucmd) (nlStr s)) true (testText (D.cmdD s.ucmd) (nlStr s)).length
+          D.unsCap i.hu.ret] := by
+  obtain ⟨htx, hcm, hbl, hst⟩ := startFormatTest_textF D s .uns hb hc hv ht hfit
+  have e := htx.cstr_eq hbl hn
+  simp only [St.cmdOf, St.pos] at e hcm
+  rw [C06_test_handler_uns D _ i hst, e.1, e.2, hcm]
+
 end Cat
